@@ -36,7 +36,7 @@ def hassh_event(kex, origin):
 
 
 def fp_event(key, origin):
-    ab = wire_ssh.key_abs(key)
+    ab = wire_ssh.cert_abs(key) if type(key).__name__.startswith('SshHostCertificate') else wire_ssh.key_abs(key)
     if ab is None:
         return None
     kind, a = ab
@@ -78,10 +78,16 @@ def run(rep):
                 e = hassh_event(var, 'variant:' + desc)
                 if e:
                     events.append(e)
-        elif cls.__name__.startswith('SshHostKey') and hasattr(obj, 'public_key'):
+        elif cls.__name__.startswith(('SshHostKey', 'SshHostCertificateV0')) and hasattr(obj, 'public_key'):
             e = fp_event(obj, 'parsed')
             if e:
                 events.append(e)
+            if cls.__name__.startswith('SshHostCertificateV0'):
+                # renewed certificates: same subject key, other serial / key id / validity / principals
+                for desc, var in variants.variants(obj, rng, pool, per_field=4):
+                    e = fp_event(var, 'variant:' + desc)
+                    if e:
+                        events.append(e)
     for k in c07.make_kexinits(rng, True):
         e = hassh_event(k, 'generated')
         if e:
@@ -116,7 +122,11 @@ def run(rep):
                           {'wire_hex': bytes(e['wire']).hex()[:800], 'hassh': e['hassh'], 'hassh_server': e['hassh_server'],
                            'preimage_client': bytes(e['pre_client']).decode('latin-1')})
         else:
-            rep.violation('%s|%s|fingerprints' % (e['cls'], clause), '%s: %s [%s]' % (e['cls'], clause, e['origin']),
+            site = 'fingerprints'
+            if e['kind'].startswith('cert_') and clause == 'key-blob-is-not-rfc4253-encoding' and \
+                    any(o['k'] == 'string' for o in e['abs']['options'] + e['abs']['extensions']):
+                site = 'string-valued-option'         # C07's finding about the option data, seen through the blob
+            rep.violation('%s|%s|%s' % (e['cls'], clause, site), '%s: %s [%s]' % (e['cls'], clause, e['origin']),
                           {'kind': e['kind'], 'abs': e['abs'], 'key_bytes_hex': bytes(e['key_bytes']).hex()[:600]})
     rep.assumptions += ['hashlib (MD5, SHA-1, SHA-256) and base64 are trusted; the rendering rules are applied by the harness',
                         'certificates: fingerprints are checked for plain host keys only']
